@@ -42,6 +42,18 @@ pub fn monitor(out: &RunOut) -> MonOut {
                     m.viol(p, "R2", &site, "the first request of the check was sent before the observer had taken CheckingForUpdates".to_string());
                 }
             }
+            // the closing events (final schedule, protocol state, result) are emitted back to back:
+            // nothing is written to storage before the observer has taken the result
+            if c.complete {
+                let res = c.events.iter().find(|(_, e)| matches!(e, EventRec::Result(_))).map(|(i, _)| *i);
+                let sched = res.and_then(|r| c.events.iter().filter(|(i, e)| *i < r && matches!(e, EventRec::Schedule(_))).map(|(i, _)| *i).last());
+                if let (Some(a), Some(b)) = (sched, res) {
+                    m.count("R2.closing_events");
+                    if let Some(j) = (a..b).find(|j| matches!(h[*j].kind, Kind::Disk { .. })) {
+                        m.viol(p, "R2", &site, format!("storage was touched (record #{j}) while the observer had not yet taken the check's closing events"));
+                    }
+                }
+            }
             // installer start after InstallingUpdate was taken
             let perform = (c.start..c.end).find(|i| matches!(h[*i].kind, Kind::Installer(InstallerRec::PerformInstall { .. })));
             let installing = ev_idx(&|e| matches!(e, EventRec::State(StateRec::InstallingUpdate)));
